@@ -578,4 +578,129 @@ theorem build_refused (x : PMInput) (h : ¬ ∃ attr ba bs hb pr, Admitted x att
     obtain ⟨⟨t, attr, ba, bs, hb', pr⟩, hv⟩ := (build_iff_admission x).mp ⟨o, hb⟩
     exact h ⟨attr, ba, bs, hb', pr, admission_sound x t attr ba bs hb' pr hv⟩
 
+/-! ### dimension index = rank among the distinct values -/
+
+theorem lexLt_irrefl (a : List Rat) : lexLt a a = false := by
+  induction a with
+  | nil => rfl
+  | cons x xs ih => simp [lexLt, ih]
+
+theorem lexLt_trans (a b c : List Rat) (h1 : lexLt a b = true) (h2 : lexLt b c = true) : lexLt a c = true := by
+  induction a generalizing b c with
+  | nil =>
+    cases b with
+    | nil => simp [lexLt] at h1
+    | cons y ys =>
+      cases c with
+      | nil => simp [lexLt] at h2
+      | cons z zs => simp [lexLt]
+  | cons x xs ih =>
+    cases b with
+    | nil => simp [lexLt] at h1
+    | cons y ys =>
+      cases c with
+      | nil => simp [lexLt] at h2
+      | cons z zs =>
+        simp only [lexLt] at h1 h2 ⊢
+        by_cases hxy : x < y
+        · by_cases hyz : y < z
+          · have : x < z := lt_trans hxy hyz
+            simp [this]
+          · by_cases hzy : z < y
+            · simp [hyz, hzy] at h2
+            · have : y = z := le_antisymm (not_lt.mp hzy) (not_lt.mp hyz)
+              subst this; simp [hxy]
+        · by_cases hyx : y < x
+          · simp [hxy, hyx] at h1
+          · have hxy' : x = y := le_antisymm (not_lt.mp hyx) (not_lt.mp hxy)
+            subst hxy'
+            simp only [hxy, ↓reduceIte] at h1
+            by_cases hxz : x < z
+            · simp [hxz]
+            · by_cases hzx : z < x
+              · simp [hxz, hzx] at h2
+              · simp only [hxz, hzx, ↓reduceIte] at h2 ⊢
+                exact ih ys zs h1 h2
+
+
+theorem filter_length_lt_of_subset {α} (l : List α) (p q : α → Bool) (hpq : ∀ a, p a = true → q a = true)
+    (w : α) (hw : w ∈ l) (hwq : q w = true) (hwp : p w = false) :
+    (l.filter p).length < (l.filter q).length := by
+  induction l with
+  | nil => simp at hw
+  | cons a l ih =>
+    simp only [List.filter_cons]
+    by_cases hpa : p a = true
+    · have hqa := hpq a hpa
+      simp only [hpa, hqa, ↓reduceIte, List.length_cons]
+      have hne : w ≠ a := by intro e; subst e; rw [hwp] at hpa; cases hpa
+      have hw' : w ∈ l := by
+        simp only [List.mem_cons] at hw
+        rcases hw with rfl | hw
+        · exact absurd rfl hne
+        · exact hw
+      have := ih hw'
+      omega
+    · simp only [hpa, Bool.false_eq_true, ↓reduceIte]
+      have hle : (l.filter p).length ≤ (l.filter q).length := by
+        clear ih hw
+        induction l with
+        | nil => simp
+        | cons b l ih2 =>
+          simp only [List.filter_cons]
+          by_cases hpb : p b = true
+          · simp [hpb, hpq b hpb]; exact ih2
+          · by_cases hqb : q b = true
+            · simp [hpb, hqb]; omega
+            · simp [hpb, hqb]; exact ih2
+      by_cases hqa : q a = true
+      · simp only [hqa, ↓reduceIte, List.length_cons]; omega
+      · simp only [hqa, Bool.false_eq_true, ↓reduceIte]
+        have hne : w ≠ a := by intro e; subst e; exact hqa hwq
+        have hw' : w ∈ l := by
+          simp only [List.mem_cons] at hw
+          rcases hw with rfl | hw
+          · exact absurd rfl hne
+          · exact hw
+        exact ih hw'
+
+/-- the rank is strictly monotone in the value: a smaller value (lexicographically) gets a smaller index -/
+theorem rankIn_lt (vs : List (List Rat)) (u v : List Rat) (hu : u ∈ vs) (h : lexLt u v = true) :
+    rankIn vs u < rankIn vs v := by
+  unfold rankIn
+  have := filter_length_lt_of_subset vs.eraseDups (fun q => lexLt q u) (fun q => lexLt q v)
+    (fun a ha => lexLt_trans a u v ha h) u (List.mem_eraseDups.mpr hu) h (lexLt_irrefl u)
+  omega
+
+/-- ranks start at 1 and do not exceed the number of distinct values -/
+theorem rankIn_bounds (vs : List (List Rat)) (v : List Rat) (hv : v ∈ vs) :
+    1 ≤ rankIn vs v ∧ rankIn vs v ≤ vs.eraseDups.length := by
+  unfold rankIn
+  constructor
+  · omega
+  · have := filter_length_lt_of_subset vs.eraseDups (fun q => lexLt q v) (fun _ => true) (fun _ _ => rfl) v
+      (List.mem_eraseDups.mpr hv) rfl (lexLt_irrefl v)
+    simp only [List.filter_true] at this
+    omega
+
+
+/-- the values of indexed attribute `d` over all planes -/
+def attributeValues (x : PMInput) (d : Nat) : List (List Rat) := (List.range x.n).filterMap (fun k => (x.pos k)[d]?)
+
+theorem dimensionIndex_get (x : PMInput) (a d : Nat) (u : List Rat) (hu : (x.pos a)[d]? = some u) :
+    (dimensionIndex x a)[d]? = some (rankIn (attributeValues x d) u) := by
+  unfold dimensionIndex attributeValues
+  have hd : d < (x.pos a).length := by
+    by_contra hc
+    rw [List.getElem?_eq_none (by omega)] at hu; cases hu
+  rw [List.getElem?_map, List.getElem?_range hd]
+  simp only [Option.map_some, hu]
+
+theorem mem_attributeValues (x : PMInput) (a d : Nat) (ha : a < x.n) (u : List Rat) (hu : (x.pos a)[d]? = some u) :
+    u ∈ attributeValues x d := by
+  unfold attributeValues
+  simp only [List.mem_filterMap, List.mem_range]
+  exact ⟨a, ha, hu⟩
+
+
 end HdVerif.PMap
